@@ -1,5 +1,6 @@
 """C07 — runtime assertions pass only when the asserted relation really holds."""
 import collections
+import contextlib
 import itertools
 import json
 import os
@@ -12,6 +13,7 @@ use_repo()
 import assertions_common as ac  # noqa: E402
 import assertions_gen as ag  # noqa: E402
 import assertions_lazy as al  # noqa: E402
+import assertions_groups as agr  # noqa: E402
 from translate_assertions import translate  # noqa: E402
 
 PROVED = [
@@ -612,7 +614,7 @@ def sig_of(name, real, want, a, b, wrap, hist=None):
 def gen_unit(rng, tier, P):
     vals = P.idx("int", "float", "bool", "str", "list", "tuple", "set", "dict", "none")
     n = 150 if tier == "quick" else 4000
-    for _ in range(n):
+    for i in range(n):
         k = rng.randrange(0, 5)
         rows = []
         for j in range(k):
@@ -630,7 +632,19 @@ def gen_unit(rng, tier, P):
         if rng.random() < 0.5:
             # unit_test in the middle of a history: earlier executions, a failed one, an open CommandBlock
             case["pre"] = random_steps(rng, rng.randrange(1, 5))
+        # group context: the unit_test is written inside one / two enclosing assert_groups that hold an assertion of
+        # their own (chosen from the counter, so the tables themselves are the ones generated without this dimension)
+        if i % 4 == 3:
+            case["ctx"] = 1 if i % 8 == 3 else 2
         yield case
+
+
+def enclosing_groups(stack, depth):
+    """enter `depth` nested assert_groups, each with one passing assertion of its own before the payload"""
+    from pedal.assertions.feedbacks import assert_group
+    for _ in range(depth or 0):
+        stack.enter_context(assert_group("enclosing"))
+        ac.rt.assert_true(True)
 
 
 def run_unit(case, P):
@@ -647,7 +661,9 @@ def run_unit(case, P):
     seen = []
     try:
         extra = {"partial_credit": True} if case.get("partial") else {}
-        ok = ac.unit_test("table", *[([j], P.raw[e]) for j, _, e in case["rows"]], **extra)
+        with contextlib.ExitStack() as stack:
+            enclosing_groups(stack, case.get("ctx"))
+            ok = ac.unit_test("table", *[([j], P.raw[e]) for j, _, e in case["rows"]], **extra)
         groups = [f for f in ac.MAIN_REPORT.feedback + ac.MAIN_REPORT.ignored_feedback
                   if type(f).__name__ == "unit_test"]
         if len(groups) != 1:
@@ -1092,6 +1108,9 @@ def correspond(rng, tier, driver):
 # unhashable-views, decimal-proxy, hashed-iterators.  They are generated by default; VERIF_C07_LAZY_EXTRA=none (or a
 # comma-separated subset) leaves them out.
 LAZY = os.environ.get("VERIF_C07_LAZY", "1") == "1"
+# unit_test / assert_group while other feedback groups of the report are alive (assertions_groups): enclosing assert_groups,
+# the group of the current source section, a Report of its own, several groups in a row.  VERIF_C07_GROUPS=0 switches it off.
+GROUPS = os.environ.get("VERIF_C07_GROUPS", "1") == "1"
 _gate = os.environ.get("VERIF_C07_LAZY_EXTRA", "all")
 LAZY_EXTRA = frozenset(al.GATES if _gate in ("1", "all") else [g for g in _gate.split(",") if g in al.GATES])
 
@@ -1303,7 +1322,10 @@ def search(rng, tier, broken, corr):
                     "value-class stream (lazy / view / iterator-like operands and the other classes equality_test has a branch "
                     "for: a verdict is demanded where Python's own == and 'a lazy object stands for its elements' agree, "
                     "otherwise pairing with the negation, order independence and wrapping independence; every other "
-                    "assertion family against the plain Python relation on fresh objects; unit_test with lazy values)",
+                    "assertion family against the plain Python relation on fresh objects; unit_test with lazy values), and the "
+                    "group-context stream (unit_test / assert_group / single assertions while enclosing assert_groups, the "
+                    "group of the current source section or both are open, on MAIN_REPORT or a Report of its own: verdict "
+                    "== all of its own cases pass, counts == true counts of its own cases)",
             "evaluations": 0, "distinct_nontrivial": 0, "samples": []}
     best = {}
     results = getattr(corr, "results", None)
@@ -1377,9 +1399,11 @@ def search(rng, tier, broken, corr):
             size = len(json.dumps(case))
             if key not in best or size < best[key][0]:
                 rows = [[j, None if s is None else P.specs[s], P.specs[e]] for j, s, e in case["rows"]]
-                best[key] = (size, Failure(sig, "unit_test on %d cases returned %s, expected %s" % (
-                    len(case["rows"]), real, want), {"unit_test_rows": rows, "partial_credit": bool(case.get("partial")),
-                                                     "pre": case.get("pre"), "real": real, "expected": want}))
+                best[key] = (size, Failure(sig, "unit_test on %d cases%s returned %s, expected %s" % (
+                    len(case["rows"]), " written inside %d enclosing assert_group(s)" % case["ctx"] if case.get("ctx")
+                    else "", real, want), {"unit_test_rows": rows, "partial_credit": bool(case.get("partial")),
+                                                     "pre": case.get("pre"), "enclosing_groups": case.get("ctx", 0),
+                                                     "real": real, "expected": want}))
     # assert_type
     for vi, w, name, real, want in run_type_cases():
         info["evaluations"] += 1
@@ -1412,6 +1436,13 @@ def search(rng, tier, broken, corr):
         lazy_failures(lazy, best, info)
     else:
         info["value_classes"] = "not visited (switched off by VERIF_C07_LAZY=0)"
+    # unit_test / assert_group / single assertions while other groups of the report are alive (own reports and programs)
+    if GROUPS:
+        group_failures(rng, tier, best, info)
+        ag.end_history()
+        ac.renew()
+    else:
+        info["group_contexts"] = "not visited (switched off by VERIF_C07_GROUPS=0)"
     # clear_sandbox() histories (last: they invalidate every proxy made so far)
     if HIST_CLEAR_SANDBOX:
         for d, real, want in clear_sandbox_stream():
@@ -1443,6 +1474,58 @@ def search(rng, tier, broken, corr):
     ordered = first + rest
     return ([f for f in ordered if canon(f.signature) not in known][:12] +
             [f for f in ordered if canon(f.signature) in known]), info
+
+
+def group_failures(rng, tier, best, info):
+    """the group-context stream: real unit_test / assert_group / assertions inside other open groups vs the oracle of
+    assertions_groups (verdict == all cases pass, counts == true counts of the group's own cases)"""
+    ag.end_history()
+    seen = collections.Counter()
+    worst = {}
+    scs = agr.scenarios(rng, tier)
+    for sc in scs:
+        info["evaluations"] += 1
+        real = agr.run(sc)
+        want = agr.expect(sc)
+        seen["section" if sc.get("section") is not None else "no section"] += 1
+        seen["report=" + str(sc.get("report"))] += 1
+        seen["unit_tests"] += sum(1 for w in want if w["what"] == "u")
+        seen["unit_tests with a failing case"] += sum(1 for w in want if w["what"] == "u" and not w["passed"])
+        seen["assert_groups"] += sum(1 for w in want if w["what"] == "g")
+        seen["outer verdict left open (only an inner group fails)"] += sum(
+            1 for w in want if w["what"] == "g" and w["failed"] is None)
+        diff = agr.compare(real, want)
+        if diff is None:
+            continue
+        kind, index, field = diff
+        what, where = agr.context_of(sc, index)
+        sig = {"group_context": where, "of": what, "kind": kind}
+        key = json.dumps(sig, sort_keys=True)
+        size = len(json.dumps(sc))
+        if key not in worst or size < worst[key][0]:
+            worst[key] = (size, sig, sc)
+    info["group_contexts"] = dict(seen, scenarios=len(scs))
+    for key, (size, sig, sc) in worst.items():
+        def still(cand, sig=sig):
+            d = agr.compare(agr.run(cand), agr.expect(cand))
+            if d is None:
+                return False
+            what, where = agr.context_of(cand, d[1])
+            return {"group_context": where, "of": what, "kind": d[0]} == sig
+        sc = agr.shrink(sc, still)
+        real, want = agr.run(sc), agr.expect(sc)
+        d = agr.compare(real, want)
+        at = ("observation %d, field %r: real %r, expected %r" % (d[1], d[2], real[d[1]].get(d[2]), want[d[1]].get(d[2]))
+              if d and d[1] is not None and d[2] else str(real)[:200])
+        size = len(json.dumps(sc))
+        if key not in best or size < best[key][0]:
+            best[key] = (size, Failure(sig, "grading script [ %s ]: the %s %s (%s): %s" % (
+                " ; ".join(agr.render(sc)), sig["of"], {"verdict": "reports success / failure wrongly",
+                                                          "count": "reports a wrong pass count",
+                                                          "report": "is listed / not listed in the report wrongly",
+                                                          "escapes": "raises", "shape": "is missing"}[sig["kind"]],
+                "inside " + sig["group_context"] if sig["group_context"] != "top" else "no other group open", at),
+                {"group_scenario": sc, "real": real, "expected": want}))
 
 
 def clear_sandbox_stream():
@@ -1595,6 +1678,17 @@ def replay(payload):
                 return 0 if real == rp["expected"] else 1
         print("unknown class_type_case", rp["class_type_case"])
         return 2
+    if "group_scenario" in rp:
+        sc = rp["group_scenario"]
+        print("script   :")
+        for line in agr.render(sc):
+            print("    " + line)
+        real, want = agr.run(sc), agr.expect(sc)
+        print("real     :", json.dumps(real))
+        print("property :", json.dumps(want), "(null = left open)")
+        d = agr.compare(real, want)
+        print("verdict  :", "satisfies the property" if d is None else "violates it: %s at observation %s field %s" % d)
+        return 0 if d is None else 1
     if "unit_test_rows" in rp:
         ac.setup()
         rows = rp["unit_test_rows"]
@@ -1603,7 +1697,9 @@ def replay(payload):
         sb = ac.get_sandbox()
         sb.data["TABLE"] = {j: ac.build(s) for j, s, _ in rows if s is not None}
         extra = {"partial_credit": True} if rp.get("partial_credit") else {}
-        ok = ac.unit_test("table", *[([j], ac.build(e)) for j, _, e in rows], **extra)
+        with contextlib.ExitStack() as stack:
+            enclosing_groups(stack, rp.get("enclosing_groups"))
+            ok = ac.unit_test("table", *[([j], ac.build(e)) for j, _, e in rows], **extra)
         g = [f for f in ac.MAIN_REPORT.feedback + ac.MAIN_REPORT.ignored_feedback if type(f).__name__ == "unit_test"]
         print("real     : returned", ok, "success_count", g[0].fields.get("success_count") if g else None,
               "total_count", g[0].fields.get("total_count") if g else None)
